@@ -19,10 +19,13 @@ require (
 	github.com/aperturerobotics/entitygraph v0.11.0 // indirect
 	github.com/aperturerobotics/go-websocket v1.8.15-0.20260329113544-74dbfb8f11c6 // indirect
 	github.com/aperturerobotics/json-iterator-lite v1.0.1-0.20260223122953-12a7c334f634 // indirect
+	github.com/bwesterb/go-ristretto v1.2.3 // indirect
+	github.com/cloudflare/circl v1.6.3 // indirect
 	github.com/klauspost/compress v1.18.5 // indirect
 	github.com/klauspost/cpuid/v2 v2.2.10 // indirect
 	github.com/libp2p/go-buffer-pool v0.1.0 // indirect
 	github.com/libp2p/go-yamux/v4 v4.0.2 // indirect
+	github.com/patrickmn/go-cache v2.1.0+incompatible // indirect
 	github.com/pkg/errors v0.9.1 // indirect
 	github.com/quic-go/quic-go v0.59.0 // indirect
 	golang.org/x/crypto v0.50.0 // indirect
